@@ -522,3 +522,79 @@ Definition trip_static (s : selection) (pts : list cpoint) : list N * option (li
 
 Definition trip_event (req : N) (evs : list cpoint) : list N * option (list obs) :=
   let bytes := serialize (write_events req evs) in (bytes, master_side bytes).
+
+(* ---- specification vocabulary of property C10 (used by App/ConvertProofs.v) --------------------- *)
+Definition wf_value (t : mtype) (v : N) : Prop :=
+  match t with
+  | BI | BOS => v < 2
+  | DBI => v < 4
+  | CTR | FCTR => v < 4294967296
+  | AI | AOS | FAI => v < p64
+  end.
+
+Definition wf_time (t : option (tq * N)) : Prop :=
+  match t with Some (_, x) => x <= timestamp_max | None => True end.
+
+Definition wf_meas (t : mtype) (m : cmeas) : Prop :=
+  wf_value t (cm_value m) /\ cm_flags m < 256 /\ wf_time (cm_time m) /\ cm_bytes m = [].
+
+(* what a variation is able to represent, read off the recipe *)
+Definition value_representable (r : recipe) (m : cmeas) : Prop :=
+  match rc_to_value r with
+  | None => True
+  | Some ToValRaw => True
+  | Some ToValAsU16 => cm_value m < 65536
+  | Some ToValI16 => exists z, (i16_min <= z <= i16_max)%Z /\ cm_value m = fb64_of_Z z
+  | Some ToValI32 => exists z, (i32_min <= z <= i32_max)%Z /\ cm_value m = fb64_of_Z z
+  | Some ToValF32 => exists x, x < p32 /\ fb32_exp x < 255 /\ cm_value m = fb32_to_f64 x
+  end.
+
+Definition flags_representable (r : recipe) (m : cmeas) : Prop :=
+  match rc_to_flags r with None => cm_flags m = online_flags | Some _ => True end.
+
+Definition time_representable (r : recipe) (m : cmeas) : Prop :=
+  match rc_to_time r with
+  | None => cm_time m = None
+  | Some ToTimeInto => exists t, cm_time m = Some (Sync, t)
+  | Some ToTimeCto => cm_time m <> None
+  end.
+
+Definition representable (r : recipe) (m : cmeas) : Prop :=
+  value_representable r m /\ flags_representable r m /\ time_representable r m.
+
+(* what arrives when the variation is narrower than the measurement *)
+Definition narrowed_value (r : recipe) (m : cmeas) : N :=
+  match rc_to_value r with
+  | None => cm_value m
+  | Some ToValRaw => cm_value m
+  | Some ToValAsU16 => cm_value m mod 65536
+  | Some ToValI16 => fb64_of_Z (snd (to_i16 m))
+  | Some ToValI32 => fb64_of_Z (snd (to_i32 m))
+  | Some ToValF32 => fb32_to_f64 (snd (to_f32 m))
+  end.
+
+Definition narrowed_flags (r : recipe) (m : cmeas) : N :=
+  match rc_to_flags r with
+  | None => online_flags
+  | Some ToFlagsWire => wire_flags (rc_type r) m
+  | Some ToFlagsRaw => cm_flags m
+  | Some ToFlagsConv => match rc_to_value r with Some tv => fst (conv_of tv m) | None => cm_flags m end
+  end.
+
+Definition narrowed_time (r : recipe) (m : cmeas) (cto : option (tq * N)) (d : N) : option (tq * N) :=
+  match rc_to_time r with
+  | None => None
+  | Some ToTimeInto => Some (Sync, time_stamp (cm_time m))
+  | Some ToTimeCto => cto_add cto d
+  end.
+
+Definition narrowed (r : recipe) (m : cmeas) (cto : option (tq * N)) (d : N) : cmeas :=
+  mk_cmeas (narrowed_value r m) (narrowed_flags r m) (narrowed_time r m cto d) [].
+
+(* the measurements among the observations *)
+Fixpoint meas_of (l : list obs) : list (otype * N * cmeas) :=
+  match l with
+  | [] => []
+  | OMeas t i m :: r => (t, i, m) :: meas_of r
+  | _ :: r => meas_of r
+  end.
